@@ -361,3 +361,49 @@ def rule_hash_covers_eq(ck, repo, R, classes):
                   f'objects differing only in {sorted(compared - set(hashed)) or sorted(set(hashed) - compared)} hash alike / unlike against __eq__',
                   file=h.file, line=h.lineno, func=h.qualname, construct=' '.join(src(h.node.body[-1]).split())[:120])
     ck.floor(R, len(classes))
+
+
+def rule_fragment_counter(ck, repo, R):
+    """C15: the CXSMILES `f:` block numbers the dot-separated pieces of the whole reaction string; the reader counts them the same way (one per piece). The
+    writer's running index must therefore advance by the number of components of every molecule it writes -- decided by evaluating the statements that
+    touch the counter for molecules with 1, 2 and 3 components"""
+    from .r_query import _ev, _Unknown
+    from .astutil import single_defs
+    ck.rule(R, 'ReactionContainer.__format__: on every path through the per-molecule loop the fragment counter grows by that molecule\'s connected_components_count '
+               '(1 for an ordinary molecule); evaluated for 1, 2 and 3 components')
+    f = repo.func(f'{RX}:ReactionContainer.__format__')
+    loops = [l for l in ast.walk(f.node) if isinstance(l, ast.For) and any(isinstance(a, ast.AugAssign) and src(a.target) == 'count' for a in ast.walk(l))]
+    ck.require(len(loops) >= 1, '__format__: loop advancing `count` not found')
+    lp = min(loops, key=lambda l: sum(1 for _ in ast.walk(l)))  # the innermost one
+
+    def run(stmts, env, total):
+        for st in stmts:
+            if isinstance(st, ast.Assign) and isinstance(st.targets[0], ast.Name) and 'connected_components_count' in src(st.value):
+                try:
+                    env = dict(env, **{st.targets[0].id: _ev(st.value, env)})
+                except _Unknown:
+                    pass
+            elif isinstance(st, ast.AugAssign) and src(st.target) == 'count':
+                v = _ev(st.value, env)
+                total += v if isinstance(st.op, ast.Add) else -v
+            elif isinstance(st, ast.If):
+                try:
+                    t = bool(_ev(st.test, env))
+                except _Unknown:
+                    continue  # a test about something else
+                total = run(st.body if t else st.orelse, env, total)
+        return total
+    bad = []
+    for cc in (1, 2, 3):
+        env = {'m.connected_components_count': cc}
+        for tname in ('m',):
+            pass
+        try:
+            got = run(lp.body, env, 0)
+        except _Unknown as e:
+            raise AnalysisError(f'__format__: counter arithmetic not understood ({e})')
+        if got != cc:
+            bad.append((cc, got))
+    ck.decide(not bad, R, 'advance-by-components', None,
+              f'ReactionContainer.__format__: for a molecule with (components, counter advance) = {bad} the fragment index does not advance by the number of written pieces: '
+              f'the f: block of a later multi-component molecule points at the wrong pieces, and the reader regroups other molecules', file=f.file, line=lp.lineno, func=f.qualname)
